@@ -1,10 +1,10 @@
-\* intended flush rules, pending atom not discarded on delete: TLC finds the commit crash (real defect C13-e)
+\* fully repaired design: TLC must PASS
 CONSTANTS MaxAtom = 3
  FlushOnDelete = TRUE
  FlushOnCommit = TRUE
  ResetChangedOnAbort = TRUE
- DiscardOnDelete = FALSE
- RecalcAllOnCommit = FALSE
+ DiscardOnDelete = TRUE
+ RecalcAllOnCommit = TRUE
 SPECIFICATION Spec
 INVARIANT CacheCoherent
 INVARIANT HydrogensFresh
